@@ -305,9 +305,9 @@ func c12Check(c *core.Ctx, oracle string, doc any, layers ...any) {
 func buildC12(tier string) *core.Plan {
 	n := 4
 	maxCount := 5
-	innerN, namedMax := 2, 3
+	innerN, namedMax := 3, 3
 	if tier == "thorough" {
-		n, maxCount, innerN, namedMax = 6, 6, 3, 4
+		n, maxCount, innerN, namedMax = 6, 6, 4, 4
 	}
 	a := gen.Alphabet{Scalars: []any{1, "$repeat", `$"v{$repeat}"`}, Keys: []string{"a", `$"k{$repeat}"`}, MaxList: 2, MaxMap: 2}
 	bodies := gen.Filter(gen.Trees(a, n), func(v any) bool { return gen.IsMap(v) || gen.IsList(v) })
@@ -315,7 +315,9 @@ func buildC12(tier string) *core.Plan {
 	for i := 0; i <= maxCount; i++ {
 		counts = append(counts, i)
 	}
-	bad := []any{"2", 1.5, true, []any{}, []any{2}, "x", map[string]any{"x": "2"}, map[string]any{"x": 1.5, "y": 2}, map[string]any{"x": true}}
+	bad := []any{"2", 1.5, true, []any{}, []any{2}, "x", map[string]any{"x": "2"}, map[string]any{"x": 1.5, "y": 2}, map[string]any{"x": true},
+		// a malformed count after a count of zero (nothing is generated, the count is malformed all the same)
+		map[string]any{"a": 0, "b": "two"}, map[string]any{"a": 0, "b": 1.5}, map[string]any{"b": 0, "a": []any{1}}}
 	all := append(append([]any{}, counts...), bad...)
 	nall := int64(len(all))
 
